@@ -1514,8 +1514,11 @@ class unyt_array(np.ndarray):
 
         info["units"] = str(self.units)
         lut = {}
+        default_lut = default_unit_registry.lut
         for k, v in self.units.registry.lut.items():
-            if k not in default_unit_registry.lut:
+            # symbols of the user's own, and default symbols the registry
+            # gives a value of its own
+            if k not in default_lut or default_lut[k] != v:
                 lut[k] = v
         info["unit_registry"] = np.void(pickle.dumps(lut))
 
